@@ -399,8 +399,22 @@ CLAIMED["C21"] = dict(
          "and improper rotations); the Wannier-function representation matrices of Dwann are not covered.",
     note=TB + "; sympy's polynomial arithmetic is the computation the code itself relies on (trusted); identities verified on the cone over SO(3) hold on SO(3) by homogeneity")
 
+CLAIMED["C20"] = dict(
+    text="SymWann.symmetrize is a linear map on the real-space matrices; the assembled REAL class (irreducible (R,a,b) search, backward rotation, "
+         "averaging, completion of the R-set) is executed on SYMBOLIC matrices Ham and AA for concrete structures (orthorhombic mmm with a two-site s "
+         "orbit and a p shell, a 2_1 screw axis; thorough: monoclinic, tetragonal 4/mmm, hexagonal with p orbitals mixing under C3) and its output is "
+         "proved equal, coefficient by coefficient, to the group average (1/|G|) sum_g g.X of a group action written in the contract from the geometry "
+         "alone (operations {S|t}(,T), atomic positions, vector representation of p shells; not from the symmetrizer's maps). A group average is "
+         "invariant under every g (hence E(gk) = E(k) and the pseudo-vector law for Berry curvature), keeps X(-R) = X(R)^dagger and is a projection; "
+         "Hermiticity, idempotence (second run of the real code on its own output) and the frame are also discharged directly. One pass of the centre "
+         "symmetrisation equals the orbital-weighted average, symmetric centres are a fixed point; the driver System_R.symmetrize2 must store centres "
+         "that are a fixed point of it, new R-vectors shifted by the new centres, point group and structure from the symmetrizer. Spin-orbit / magnetic "
+         "settings, the k-space statements themselves (eigen-solver) and the set-up chain (irrep SpaceGroup, Projection, SymmetrizerSAWF construction) "
+         "are covered by the stand-in only: installed System_R.symmetrize on random Hermitian systems, energies / Berry curvature / spin at g k for every "
+         "operation, Hermiticity, centres, idempotence.",
+    note=TB + "; set-up by installed code on concrete input, cross-checked by the geometric specification; cutoff < 0 (default) assumed in the symbolic units; d, f shells and hybrids only through C21")
+
 NOT_APPLICABLE = {
-    "C20": "real-space symmetrisation is a data-dependent floating-point orbit search over irrep objects; its postcondition is only statable through an eigen-solver, no discrete/algebraic kernel is left once externals are abstracted (DESIGN section 7)",
     "C28": "agreement only up to discretisation error on converged grids: a numerical-analysis statement, not a postcondition of a call (DESIGN section 7)",
 }
 
